@@ -107,6 +107,10 @@ def gen_case(ch):
     # pairs - what a chunked/blocked dispatch or a mis-sized pool depends on
     shape_run = ch.flip(1, 5, "dispatch_shape_run")
     desc["dispatch_shape_run"] = shape_run
+    # one call in 150 is a "deep" call: a few thousand samples, 100-300 frequencies (srs) /
+    # 80-200 (fdepsd), up to 6 signals - larger bounds than the bulk of the batch
+    deep = ch.flip(1, 150, "deep_call")
+    desc["deep_call"] = deep
     if target == "srs":
         lc = ch.weighted([30, 3, 3, 3, 20, 1], "lenclass")
         if shape_run:
@@ -121,6 +125,9 @@ def gen_case(ch):
         else:
             n = 50001 + ch.draw(5000, "n")
         h = 1 if large else 1 + ch.weighted([6, 3, 2, 1], "cols")
+        if deep and not large:
+            n = 500 + ch.draw(2500, "n_deep")
+            h = 1 + ch.draw(6, "cols_deep")
         base, kind = _signal(ch, rng, n, h)
         dt = ch.weighted([8, 2, 1, 1], "dtype")
         if dt == 1:
@@ -145,6 +152,8 @@ def gen_case(ch):
             lf = 1 + ch.draw(16, "LF") if lfc == 0 else 17 + ch.draw(48, "LF") if lfc == 1 else 65 + ch.draw(66, "LF")
             if shape_run:
                 lf = 1 + ch.draw(130, "LFshape")
+            if deep:
+                lf = 100 + ch.draw(200, "LF_deep")
         freq = rng.uniform(sr / 200, 0.6 * sr, lf)
         if ch.flip(1, 8, "f0"):
             freq[ch.draw(lf, "f0at")] = 0.0
@@ -230,6 +239,11 @@ def gen_case(ch):
         # up to 140 frequencies: anything keyed on the number of tasks one worker executes
         # (a per-process task limit, a buffer that wraps) needs many tasks on few workers
         lf = 1 + ch.draw(64, "LFshape") if not ch.flip(1, 3, "LFshape_large") else 51 + ch.draw(90, "LFshape")
+    if deep:
+        n = 3000 + ch.draw(3000, "n_deep")
+        base, kind = _signal(ch, rng, n, 1)
+        base = base[:, 0] + 0.05 * rng.standard_normal(n)
+        lf = 80 + ch.draw(120, "LF_deep")
     freq = rng.uniform(sr / 100, 0.45 * sr, lf)
     if ch.flip(1, 3, "fsorted"):
         freq = np.sort(freq)
@@ -390,6 +404,8 @@ def run(ch, tr, st):
     st.rendered["sched_cfg"] = {k: v for k, v in cfg.items()}
     if len(cases) > 1:
         st.fault("several_calls_one_parent")
+    if any(c[3].get("deep_call") for c in cases):
+        st.fault("deep_call")
 
     traced = {srs_mod.__file__, fdepsd_mod.__file__}
     if cfg["trace_cyclecount"] and any(c[0] == "fdepsd" for c in cases):
@@ -599,5 +615,5 @@ ASSUMPTIONS = [
 EXPECTED_FAULTS = [
     "workers_1", "workers_2_4", "workers_5_16", "workers_gt_tasks", "late_worker_start", "worker_never_started", "stall",
     "preempt_in_task", "two_workers_mid_task", "completion_order_reversed", "completion_order_permuted", "one_worker_takes_all",
-    "cpu_count_1", "auto_chose_parallel", "parent_preempted", "several_calls_one_parent", "lazy_task_feed",
+    "cpu_count_1", "auto_chose_parallel", "parent_preempted", "several_calls_one_parent", "lazy_task_feed", "deep_call",
 ]
